@@ -123,6 +123,50 @@ def seeded_variants(prop: str) -> List[Variant]:
     return out
 
 
+def refactoring_variants(prop: str) -> List[Variant]:
+    """Behaviour-preserving changes written by independent sub-agents (kept under /verif/benign; each
+    passed the pinned suite and an equivalence script on its own): every check must stay silent on
+    them.  A change is replayed for the property it was written for and for every property that shares
+    a touched file.  The changes on which some rule still raises a false alarm are listed, with the
+    rule, in benign/RESIDUAL_FALSE_ALARMS.txt and are not replayed for that property."""
+    import glob
+    import json
+
+    root = os.path.join(os.path.dirname(os.path.dirname(HERE)), "benign")
+    residual = set()
+    try:
+        with open(os.path.join(root, "RESIDUAL_FALSE_ALARMS.txt"), encoding="utf-8") as fh:
+            for line in fh:
+                line = line.split("#", 1)[0].split()
+                if len(line) >= 2:
+                    residual.add((line[0], line[1]))
+    except OSError:
+        pass
+    anchors = set()
+    try:
+        with open(os.path.join(os.path.dirname(os.path.dirname(HERE)), "properties.jsonl"), encoding="utf-8") as fh:
+            for line in fh:
+                p = json.loads(line)
+                if p["id"] == prop:
+                    anchors = set(p["anchors"]["files"])
+    except OSError:
+        pass
+    out = []
+    for d in sorted(glob.glob(os.path.join(root, "C??-*"))):
+        name = os.path.basename(d)
+        pp = os.path.join(d, "patch.diff")
+        if not os.path.exists(pp) or (name, prop) in residual:
+            continue
+        with open(pp, encoding="utf-8") as fh:
+            edits = patch_edits(fh.read())
+        if not edits:
+            continue
+        if not (name.startswith(prop + "-") or {e[0] for e in edits} & anchors):
+            continue
+        out.append(Variant(f"refactoring: {name}", edits, None, None, False))
+    return out
+
+
 def tree_digest(repo: Repo) -> str:
     h = hashlib.sha256()
     for rel in sorted(repo.by_relpath):
@@ -211,6 +255,7 @@ def run_selftest(prop: str, tier: str, seed: int, repo: Repo) -> dict:
         benign = []
     else:
         mutants += seeded_variants(prop)
+        benign += refactoring_variants(prop)
     rnd = random.Random(seed)
     rnd.shuffle(mutants)
     rnd.shuffle(benign)
@@ -243,6 +288,8 @@ def run_selftest(prop: str, tier: str, seed: int, repo: Repo) -> dict:
         "skipped": sum(1 for r in results if r[1] == "skipped"),
         "seeded_changes_detected": sum(1 for r in results if r[0].startswith("seeded: ") and r[1] == "detected"),
         "seeded_changes_applicable": sum(1 for r in results if r[0].startswith("seeded: ") and r[1] in ("detected", "missed")),
+        "refactorings_silent": sum(1 for r in results if r[0].startswith("refactoring: ") and r[1] == "silent"),
+        "refactorings_applicable": sum(1 for r in results if r[0].startswith("refactoring: ") and r[1] in ("silent", "noisy")),
         "pristine_tree": is_pristine(repo),
         "problems": [f"{r[0]}: {r[1]}: {r[2]}" for r in results if r[1] in ("missed", "noisy", "corpus-error")],
         "detected": {r[0]: r[2] for r in results if r[1] == "detected"},
